@@ -42,7 +42,7 @@ def ortho_triple(rng):
     a, b, c = [list(map(float, v)) for v in rng.choice(choices)]
     vs = [a, b, c]
     rng.shuffle(vs)
-    vs = [[x * rng.choice([1, -1]) * 1.0 for x in v] for v in vs]
+    vs = [scale(v, float(rng.choice([1, -1]))) for v in vs]
     return vs
 
 
